@@ -2,6 +2,7 @@ import RbV.Model.Occ
 import RbV.Model.OccTable
 import RbV.Model.InvBWT
 import RbV.Thm.GenSrcBwt
+import RbV.Thm.GenSrcPrescan
 /-!
 # C04 — BWT, less and Occ are exact (mirror models of `bwt.rs` refine the specification)
 
@@ -148,5 +149,27 @@ theorem bwt_source_length_mismatch_panics (t sa : List Nat) (hlen : t.length ≠
   GenSrcBwt.bwt_length_mismatch_panics t sa hlen
 
 example : Gen.SrcBwt.bwt [99, 97, 98, 99, 97, 36] [5, 4, 1, 2, 3, 0] = Rs.Res.ok [97, 99, 99, 97, 98, 36] := by decide
+
+/-- **`utils::prescan`, as written (in-place rewrite through `iter_mut()`), instantiated with `+`, is the model's
+`prescanGo`** — the second half of `less()` -/
+theorem prescan_source_eq_model (a : List Nat) (neutral : Nat) :
+    Gen.SrcPrescan.prescan (· + ·) a neutral = Rs.Res.ok (prescanGo neutral a) :=
+  GenSrcPrescan.prescan_eq_model a neutral
+
+/-- generated code = specification: entry `i` of the slice rewritten by the translated `prescan` is the neutral element
+plus the sum of the entries before `i` -/
+theorem prescan_source_exact (a : List Nat) (neutral i : Nat) (h : i < a.length) :
+    ∃ r, Gen.SrcPrescan.prescan (· + ·) a neutral = Rs.Res.ok r ∧ r[i]? = some (neutral + (a.take i).sum) :=
+  ⟨_, GenSrcPrescan.prescan_eq_model a neutral, prescanGo_getElem? neutral a i h⟩
+
+/-- … and applied to the count array of a BWT it yields the `less` array: entry `c` = number of smaller symbols. (The
+first half of `less()` — `alphabet.max_symbol()`, the counting loop, the closure `|a, b| a + b` — is outside the translated
+subset and stays tied by the mirror model `countArr` and the correspondence run.) -/
+theorem less_source_prescan_exact (bwt : List Nat) (m c : Nat) (h : c < m) :
+    ∃ r, Gen.SrcPrescan.prescan (· + ·) (countArr bwt m) 0 = Rs.Res.ok r ∧
+      r[c]? = some (bwt.countP (fun x => decide (x < c))) :=
+  ⟨_, GenSrcPrescan.prescan_eq_model _ 0, less_eq bwt m c h⟩
+
+example : Gen.SrcPrescan.prescan (· + ·) [1, 0, 2, 1] 0 = Rs.Res.ok [0, 1, 1, 3] := by decide
 
 end RbV.Thm.C04
